@@ -13,14 +13,42 @@ RULE = ('cases: 1-3 existing routes (tours of 0-4 activities) plus 0-2 free vehi
         'single jobs, metric and non-metric matrices, waiting-heavy tours; goal [unassigned, tours, cost]. For each case the real '
         'evaluate_all runs in rayon pools of 1,2,3,5,8 threads (3 repetitions each), the sequential fold and all two-chunk splits are '
         'computed with the real step/reducer, and every item is evaluated alone. non-trivial = distinct cases with >= 2 successful items '
-        'of different cost.')
+        'of different cost. Every 19th case is a whole Solver run (op layouts): 12-20 unit-demand jobs, vehicles of capacity 2-3 (so the '
+        'solution has 4+ tours and the decomposition search forms several groups of tours), 60-200 generations, solved under 3-4 of the layouts '
+        '1x1, 1x4, 2x1, 2x2, 3x2, 4x1, 8x1, default; on every returned solution: each job exactly once (served or unassigned), nothing '
+        'foreign, no vehicle twice, no tour above capacity.')
 TRUSTED = ["rayon's fold/reduce only produces reductions over contiguous chunks in order (its documented contract); real thread interleavings are sampled, not enumerated"]
 ASSUMPTIONS = ['costs compared as integer vectors (integer data)']
+
+
+LAYOUTS = [[1, 1], [1, 4], [2, 1], [2, 2], [3, 2], [4, 1], [8, 1], None]
+
+
+def gen_layouts_case(rng):
+    """whole solver runs under explicit pool layouts: many small tours (unit demand, capacity 2-3), so that the search operators
+    which split a solution into groups of tours (decomposition) have several groups, more than there are pools"""
+    w = K.gen_world(rng, nmax=8, metric=True)
+    njobs = rng.range(12, 20)
+    jobs = [{'id': 100 + i, 'places': [{'loc': rng.range(1, w['n'] - 1), 'svc': rng.choice([0, 2]), 'tws': [[0, 'inf']]}], 'dem': [0, 0, 1, 0]}
+            for i in range(njobs)]
+    vehicles = []
+    total = 0
+    while total < njobs + 2:
+        cap = rng.range(2, 3)
+        total += cap
+        vehicles.append({'start': 0, 'end': 0, 'shift_start': 0, 'shift_end': 'inf', 'cap': cap,
+                         'costs': [rng.range(0, 20), 1, rng.range(0, 2), 0, 0]})
+    layouts = [LAYOUTS[i] for i in sorted(set([0, 2] + [rng.below(len(LAYOUTS)) for _ in range(2)]))]
+    return {'op': 'layouts', 'n': w['n'], 'dur': w['dur'], 'dist': w['dist'], 'vehicles': vehicles, 'jobs': jobs,
+            'layouts': layouts, 'generations': rng.choice([60, 120, 200])}
 
 
 def generate(rng, tier, n):
     cases = []
     for k in range(n):
+        if k % 19 == 7:
+            cases.append(gen_layouts_case(rng))
+            continue
         w = K.gen_world(rng, metric=rng.chance(1, 2))
         base = {x: w[x] for x in ('n', 'dur', 'dist')}
         routes = []
@@ -66,7 +94,40 @@ def g_opt(v):
     return 'None' if v is None else '(Some %s)' % zlist(v)
 
 
+def is_layouts(c):
+    return c.get('op') == 'layouts'
+
+
+def layouts_oracle(c, impl):
+    """every job exactly once (in one tour or unassigned), nothing foreign, no tour above its vehicle's capacity"""
+    v = []
+    ids = ['j%d' % j['id'] for j in c['jobs']]
+    caps = {'v%d' % k: x['cap'] for k, x in enumerate(c['vehicles'])}
+    for r in impl['layouts']:
+        lay = 'default' if r['layout'] is None else '%dx%d' % tuple(r['layout'])
+        if 'error' in r:
+            v.append({'class': 'solver-error-under-layout', 'what': 'layout %s: %s' % (lay, r['error'])})
+            continue
+        seen = [j for t in r['routes'] for j in t['jobs']] + list(r['unassigned'])
+        lost = [j for j in ids if j not in seen]
+        dup = sorted(set(j for j in seen if seen.count(j) > 1))
+        foreign = [j for j in seen if j not in ids]
+        if lost:
+            v.append({'class': 'job-lost-under-layout', 'what': 'layout %s: %d of %d jobs are neither served nor unassigned: %s' % (lay, len(lost), len(ids), lost[:6])})
+        if dup or foreign:
+            v.append({'class': 'job-duplicated-under-layout', 'what': 'layout %s: duplicated %s foreign %s' % (lay, dup[:6], foreign[:6])})
+        used = [t['vehicle'] for t in r['routes']]
+        if len(set(used)) != len(used):
+            v.append({'class': 'vehicle-twice-under-layout', 'what': 'layout %s: a vehicle drives two tours: %s' % (lay, used)})
+        for t in r['routes']:
+            if len(t['jobs']) > caps.get(t['vehicle'], 0):
+                v.append({'class': 'capacity-under-layout', 'what': 'layout %s: %s serves %d unit jobs with capacity %s' % (lay, t['vehicle'], len(t['jobs']), caps.get(t['vehicle']))})
+    return v
+
+
 def model_term(c, impl):
+    if is_layouts(c):
+        return None            # whole-solver runs: the property predicate is evaluated on the returned solutions only
     if 'panic' in impl:
         return 'run_c15 []'
     items = ['(mk_item %s %s)' % (g_opt(i['full']), zlist(i['rc'])) for i in impl['items']]
@@ -99,7 +160,9 @@ def compare(c, impl, model):
 def oracle(c, impl):
     if 'panic' in impl:
         return [{'class': 'panic', 'what': impl['panic']}]
-    fulls = [i['full'] for i in impl['items'] if i['full'] is not None]
+    if is_layouts(c):
+        return layouts_oracle(c, impl)
+    fulls =[i['full'] for i in impl['items'] if i['full'] is not None]
     best = min(fulls, key=vkey) if fulls else None
     neg = any(i['full'] is not None and vkey(i['full']) < vkey(i['rc']) for i in impl['items'])
     v = []
@@ -119,11 +182,23 @@ def oracle(c, impl):
 def nontrivial_key(c, impl):
     if 'panic' in impl:
         return None
+    if is_layouts(c):
+        many = any('routes' in r and len(r['routes']) >= 4 for r in impl['layouts'])
+        return ('layouts', str(c['jobs']), str(c['layouts'])) if many else None
     fulls = set(tuple(i['full']) for i in impl['items'] if i['full'] is not None)
     return (str(c['routes']), str(c['jobs'])) if len(fulls) >= 2 else None
 
 
 def classify(c, impl):
+    if is_layouts(c):
+        labs = ['op=layouts']
+        if 'panic' not in impl:
+            for r in impl['layouts']:
+                lay = 'default' if r['layout'] is None else '%dx%d' % tuple(r['layout'])
+                labs.append('layout=' + lay)
+                if 'routes' in r:
+                    labs.append('solved_tours=%s' % ('>=4' if len(r['routes']) >= 4 else '<4'))
+        return labs
     labs = ['routes=%d' % len(c['routes']), 'free=%d' % len(c['free']), 'jobs=%d' % len(c['jobs'])]
     if 'panic' not in impl:
         labs.append('items=%d' % len(impl['items']))
@@ -140,5 +215,6 @@ MANIFEST_TEXT = ('Machine-checked proof (Coq): for every strict weak order on co
                  'threads and its cost must equal the minimum over the individually evaluated items.')
 MANIFEST_NOTE = ('Trusted: Coq kernel+vm_compute; harness; rayon contract (contiguous ordered chunks). Not exhibited by the model: real thread '
                  'interleavings, memory visibility, thread-local RNG (only sampled). The clause "full solver runs remain valid under every parallelism '
-                 'configuration" is exercised by the end-to-end oracle of C01 under several Parallelism layouts.')
+                 'configuration" is exercised by the end-to-end oracle of C01 under several Parallelism layouts (small problems, full validity '
+                 'checker in Coq) and by the layouts stream of this check (many-tour problems, job accounting and capacity only).')
 MANIFEST_TECHNIQUE = 'Coq proof over all reduction trees + vm_compute differential correspondence + multi-pool sampling'
